@@ -56,7 +56,11 @@ def _run(tier):
             c.traces_validated += 1
         else:
             ll = open(ltrace).read().splitlines()
-            c.report_failure("xbinary: %s on a 16 MiB run of continuation bytes not allowed by C16" % xb.describe(ll[lat - 1]),
+            if '"op":"Bulk"' in ll[lat - 1]:
+                c.report_failure("xbinary: a decoder panicked or returned other bytes in the course of more than 2^31 short newBuf decodes in one process",
+                                 {"rejected_at_line": lat, "event": ll[lat - 1][:600]})
+            else:
+                c.report_failure("xbinary: %s on a 16 MiB run of continuation bytes not allowed by C16" % xb.describe(ll[lat - 1]),
                              {"rejected_at_line": lat, "context": ll[max(0, lat - 1):lat]})
     if not c.quick():
         if ok and not c.violations:
